@@ -78,7 +78,8 @@ event log is the reference log and its completion is the reference completion (a
 function observes it). -/
 theorem compileS_correct (p : Stmt) (hst : stage1 p = true) (h0 : 0 ∉ ids p) (hnop : Instr.nop ∉ compileS p) :
     ∃ fuel, (VM.run (compileS p).toArray fuel {}).log = (refSem p).2 ∧
-            (VM.run (compileS p).toArray fuel {}).halted = some (obsCompl (refSem p).1) := by
+            (VM.run (compileS p).toArray fuel {}).halted = some (obsCompl (refSem p).1) ∧
+            (VM.run (compileS p).toArray fuel {}).tries = [] ∧ (VM.run (compileS p).toArray fuel {}).iters = [] := by
   let C : Code := (compileS p).toArray
   have hC : CodeAt C 0 (compileS p) := codeAt_toArray _
   simp only [compileS] at hC hnop
@@ -98,7 +99,9 @@ theorem compileS_correct (p : Stmt) (hst : stage1 p = true) (h0 : 0 ∉ ids p) (
   unfold Sim at S
   simp only [List.map_nil] at S
   have hlog1 : σ1.log = [] := by simp [σ1, σ0]
-  show ∃ fuel, (VM.run C fuel σ0).log = (refSem p).2 ∧ (VM.run C fuel σ0).halted = some (obsCompl (refSem p).1)
+  show ∃ fuel, (VM.run C fuel σ0).log = (refSem p).2 ∧ (VM.run C fuel σ0).halted = some (obsCompl (refSem p).1) ∧
+    (VM.run C fuel σ0).tries = [] ∧ (VM.run C fuel σ0).iters = []
+  have htr1 : σ1.tries = [] := by simp [σ1, σ0]
   simp only [refSem]
   cases hex : exec 0 [] p with
   | mk c l =>
@@ -118,9 +121,11 @@ theorem compileS_correct (p : Stmt) (hst : stage1 p = true) (h0 : 0 ∉ ids p) (
         let τ2 := VM.step τ1 .ret
         have hr : Reach C σ0 τ2 := hr1.trans (h1.trans (Reach.step h2.halted i1 (Reach.one (by simpa [τ1] using h2.halted) (by simpa [τ1] using i2))))
         obtain ⟨fuel, hf⟩ := reach_run hr (by simp [τ2, τ1])
-        refine ⟨fuel, ?_, ?_⟩
+        refine ⟨fuel, ?_, ?_, ?_, ?_⟩
         · rw [hf]; simp [τ2, τ1, h2.log, hlog1]
         · rw [hf]; simp [τ2, τ1, obsCompl]
+        · rw [hf]; simp [τ2, τ1, h2.tries, htr1]
+        · rw [hf]; simp [τ2, τ1, h2.iters]
     | brk lb v =>
       obtain ⟨τ, _, _, _, ex, t, hf, _⟩ := S
       simp [findBrk] at hf
@@ -134,24 +139,30 @@ theorem compileS_correct (p : Stmt) (hst : stage1 p = true) (h0 : 0 ∉ ids p) (
       let τ2 := VM.step τ .ret
       have hr : Reach C σ0 τ2 := hr1.trans (h1.trans (Reach.one h2.halted i1))
       obtain ⟨fuel, hf⟩ := reach_run hr (by simp [τ2])
-      refine ⟨fuel, ?_, ?_⟩
+      refine ⟨fuel, ?_, ?_, ?_, ?_⟩
       · rw [hf]; simp [τ2, h2.log, hlog1]
       · rw [hf]; simp [τ2, h3, obsCompl]
+      · rw [hf]; simp [τ2, h2.tries, htr1]
+      · rw [hf]; simp [τ2, h2.iters]
     | thr v =>
       obtain ⟨τ, h2, _, h4⟩ := S
       have ht : τ.tries = [] := by rw [h2.tries]; simp [σ1, σ0]
       have hstep : VM.throwV (some v) τ = { τ with tries := [], halted := some (Compl.thr v) } := by
         simp [VM.throwV, ht, VM.handleThrow, VM.closeIters, VM.closeIters.go, h2.iters]
       obtain ⟨fuel, hf⟩ := reach_run (hr1.trans h4) (by rw [hstep]; rfl)
-      refine ⟨fuel, ?_, ?_⟩
+      refine ⟨fuel, ?_, ?_, ?_, ?_⟩
       · rw [hf, hstep]; simp [h2.log, hlog1]
       · rw [hf, hstep]; simp [obsCompl]
+      · rw [hf, hstep]
+      · rw [hf, hstep]; exact h2.iters
     | fatal =>
-      obtain ⟨τ, h1, h2, h3⟩ := S
+      obtain ⟨τ, h1, h2, h3, h4, h5⟩ := S
       obtain ⟨fuel, hf⟩ := reach_run (hr1.trans h1) (by rw [h3]; rfl)
-      refine ⟨fuel, ?_, ?_⟩
+      refine ⟨fuel, ?_, ?_, ?_, ?_⟩
       · rw [hf, h2]; simp [hlog1]
       · rw [hf, h3]; simp [obsCompl]
+      · rw [hf]; exact h4
+      · rw [hf]; exact h5
 
 /-- The stage-1 instance of `CompileCFCorrect`, for the compositional presentation of the emission. -/
 theorem compileCF_correct_partial₁ :
@@ -159,7 +170,7 @@ theorem compileCF_correct_partial₁ :
       ∃ fuel, ((VM.run (compileS p).toArray fuel {}).halted, (VM.run (compileS p).toArray fuel {}).log)
         = (some (obsCompl (refSem p).1), (refSem p).2) := by
   intro p h1 h2 h3
-  obtain ⟨fuel, ha, hb⟩ := compileS_correct p h1 h2 h3
+  obtain ⟨fuel, ha, hb, _, _⟩ := compileS_correct p h1 h2 h3
   exact ⟨fuel, by rw [ha, hb]⟩
 
 /-- compileS_eq_compileCF: for EVERY stage-1 program (no executable check, no hypothesis on the run) the
@@ -188,14 +199,31 @@ theorem compileS_eq_compileCF (p : Stmt) (hst : stage1 p = true) (hnop : Instr.n
 
 /-- compileCF_correct_stage1: stage 1 of `CompileCFCorrect` for the BACK-PATCHING compiler `compileCF` itself
 (the mirror of compiler_stmt.go), with no executable side check: for every stage-1 program whose
-break/continue targets all resolve, the mini-VM run on `compileProgram p` has the reference log and halts
-with the reference completion. -/
+break/continue targets all resolve, the mini-VM run on `compileProgram p` has the reference log, halts
+with the reference completion, and leaves no try frame and no iterator on its stacks. -/
 theorem compileCF_correct_stage1 (p : Stmt) (hst : stage1 p = true) (h0 : 0 ∉ ids p)
     (hnop : Instr.nop ∉ compileS p) :
     ∃ fuel, (VM.run (compileProgram p) fuel {}).log = (refSem p).2 ∧
-            (VM.run (compileProgram p) fuel {}).halted = some (obsCompl (refSem p).1) := by
+            (VM.run (compileProgram p) fuel {}).halted = some (obsCompl (refSem p).1) ∧
+            (VM.run (compileProgram p) fuel {}).tries = [] ∧ (VM.run (compileProgram p) fuel {}).iters = [] := by
   rw [← compileS_eq_compileCF p hst hnop]
   exact compileS_correct p hst h0 hnop
+
+/-- the side condition `nop ∉ compileS p` follows from the source-level condition that every break / continue
+has a target (`targetsOK`, what goja's parser/compiler enforce with a SyntaxError) -/
+theorem compileS_no_nop (p : Stmt) (h : targetsOK p none [] = true) : Instr.nop ∉ compileS p := by
+  have := gen_no_nop p 0 none [] 1 (by simpa using h)
+  simp only [compileS, List.mem_append, List.mem_cons, List.mem_singleton, not_or]
+  refine ⟨⟨by simp, this⟩, ?_⟩
+  split <;> simp
+
+/-- compileCF_correct_stage1 with purely syntactic hypotheses on the source program -/
+theorem compileCF_correct_stage1_wf (p : Stmt) (hst : stage1 p = true) (h0 : 0 ∉ ids p)
+    (ht : targetsOK p none [] = true) :
+    ∃ fuel, (VM.run (compileProgram p) fuel {}).log = (refSem p).2 ∧
+            (VM.run (compileProgram p) fuel {}).halted = some (obsCompl (refSem p).1) ∧
+            (VM.run (compileProgram p) fuel {}).tries = [] ∧ (VM.run (compileProgram p) fuel {}).iters = [] :=
+  compileCF_correct_stage1 p hst h0 (compileS_no_nop p ht)
 
 /-- the executable check `sameCode` the driver still evaluates on every generated stage-1 program is a theorem -/
 theorem sameCode_stage1 (p : Stmt) (hst : stage1 p = true) (hnop : Instr.nop ∉ compileS p) : sameCode p = true := by
@@ -213,7 +241,7 @@ theorem compiled_finally_once_in_order (p : Stmt) (hst : stage1 p = true) (h0 : 
       (∀ st, scan st (VM.run (compileProgram p) fuel {}).log = some st) ∧
       ∀ i, (VM.run (compileProgram p) fuel {}).log.count (Ev.finE i)
             = (VM.run (compileProgram p) fuel {}).log.count (Ev.tryE i) := by
-  obtain ⟨fuel, hl, hh⟩ := compileCF_correct_stage1 p hst h0 hnop
+  obtain ⟨fuel, hl, hh, _, _⟩ := compileCF_correct_stage1 p hst h0 hnop
   refine ⟨fuel, hh, ?_, ?_⟩
   · rw [hl]; exact finally_inner_to_outer p 0 [] hnf
   · intro i; rw [hl]; exact finally_exactly_once p 0 [] hnf i
@@ -225,7 +253,7 @@ theorem compiled_uncatchable_runs_nothing (p : Stmt) (hst : stage1 p = true) (h0
     (hnop : Instr.nop ∉ compileS p) (hf : (refSem p).1 = .fatal) :
     ∃ fuel pre, (VM.run (compileProgram p) fuel {}).halted = some Compl.fatal ∧
       (VM.run (compileProgram p) fuel {}).log = pre ++ [Ev.fatal] := by
-  obtain ⟨fuel, hl, hh⟩ := compileCF_correct_stage1 p hst h0 hnop
+  obtain ⟨fuel, hl, hh, _, _⟩ := compileCF_correct_stage1 p hst h0 hnop
   obtain ⟨pre, hpre⟩ := (uncatchable_runs_nothing p 0 [] hf).1
   refine ⟨fuel, pre, ?_, ?_⟩
   · rw [hh, hf]; rfl
